@@ -1013,6 +1013,10 @@ def c20(run):
             src = texts.mutate(rng, progs.render(rng, io_program(rng)))
         stdin = rng.choice(['', 'one\ntwo\nthree\n', 'no newline', 'é\n\nΩ\n'])
         cases.append((src, stdin))
+    # source FILES saved with CR LF line ends, and without a final line end
+    for src0, stdin0 in list(cases[:40]):
+        cases.append((src0.replace('\n', '\r\n'), stdin0))
+        cases.append((src0.rstrip('\n'), stdin0))
     # programs full of constant assignments of every class (with and WITHOUT a poetic spelling: negative, non-finite, multi-line
     # strings), so that `rrss lint` has reports with every shape of record to print
     for _ in range(run.n(40, 600)):
